@@ -286,6 +286,21 @@ class Analysis:
             if op == ',':
                 return self.lin(e['r'], st)
             return None
+        if k == 'un':
+            # the ++/-- event itself precedes the enclosing expression in the CFG element order, so the
+            # state already holds the new value: post-forms denote the old one
+            inner = self.lin(e['e'], st)
+            if inner is None:
+                return None
+            if e['op'] == 'post++':
+                return inner - 1
+            if e['op'] == 'post--':
+                return inner + 1
+            if e['op'] in ('++pre', '--pre'):
+                return inner
+            if e['op'] == '-':
+                return -inner
+            return None
         if k == 'idx':
             return None
         if k == 'addr':
@@ -434,6 +449,12 @@ class Analysis:
         if name in self.unsigned:
             st.add_le(0, Lin.term(name))
 
+    def with_types(self, st):
+        """facts that hold by type (unsigned locals/params are >= 0) are re-established"""
+        for name in self.unsigned:
+            st.add_le(0, Lin.term(name))
+        return st
+
     def transfer(self, ev, st):
         if ev.kind == 'STORE':
             l = unwrap(ev.lhs)
@@ -566,11 +587,12 @@ class Analysis:
             if steps > 4000:
                 raise AnalysisBroken('bounds: no fixpoint in %s' % fn.name)
             b = work.pop()
-            st = IN[b].copy()
+            st = self.with_types(IN[b].copy())
             blk = fn.blocks[b]
             for ev in blk.events:
                 self.states[(b, ev.idx)] = st.copy()
                 self.transfer(ev, st)
+                self.with_types(st)
             if blk.noreturn:
                 continue
             for (t, lab) in blk.succs:
@@ -582,20 +604,30 @@ class Analysis:
                     IN[t] = out
                     work.append(t)
                 else:
-                    visits[t] = visits.get(t, 0) + 1
-                    j = IN[t].join(out)
-                    if visits[t] > max_visits:
-                        # widening: keep only facts already present syntactically
-                        j = State([f for f in j.facts if f.key() in IN[t]._keys])
+                    j = self.with_types(IN[t].copy()).join(self.with_types(out))
                     if not j.same(IN[t]):
+                        # widening per fact shape: a bound whose constant has been weakened more than twice at this
+                        # block is dropped (ascending chains i <= 0, i <= 1, ...); everything else is kept
+                        oldshapes = {tuple(sorted(f.t.items())): f.c for f in IN[t].facts}
+                        keep = []
+                        for f in j.facts:
+                            sh = tuple(sorted(f.t.items()))
+                            if sh in oldshapes and oldshapes[sh] != f.c:
+                                k2 = (t, sh)
+                                visits[k2] = visits.get(k2, 0) + 1
+                                if visits[k2] > 2:
+                                    continue
+                            keep.append(f)
+                        j = State(keep)
                         IN[t] = j
                         work.append(t)
         self.IN = IN
         # final pass: recompute obligations with the fixpoint states only
         self.obligations, self._ob_seen, self.returns = [], {}, []
         for b, st in IN.items():
-            st = st.copy()
+            st = self.with_types(st.copy())
             for ev in fn.blocks[b].events:
                 self.states[(b, ev.idx)] = st.copy()
                 self.transfer(ev, st)
+                self.with_types(st)
         return self
